@@ -579,7 +579,8 @@ nni_msg_chop(nni_msg *m, size_t len)
 int
 nni_msg_header_append(nni_msg *m, const void *data, size_t len)
 {
-	if ((len + m->m_header_len) > sizeof(m->m_header_buf)) {
+	// NB: not (len + m_header_len) > size: that sum wraps for a huge len.
+	if (len > (sizeof(m->m_header_buf) - m->m_header_len)) {
 		return (NNG_EINVAL);
 	}
 	memcpy(((uint8_t *) m->m_header_buf) + m->m_header_len, data, len);
@@ -590,7 +591,8 @@ nni_msg_header_append(nni_msg *m, const void *data, size_t len)
 int
 nni_msg_header_insert(nni_msg *m, const void *data, size_t len)
 {
-	if ((len + m->m_header_len) > sizeof(m->m_header_buf)) {
+	// NB: not (len + m_header_len) > size: that sum wraps for a huge len.
+	if (len > (sizeof(m->m_header_buf) - m->m_header_len)) {
 		return (NNG_EINVAL);
 	}
 	memmove(((uint8_t *) m->m_header_buf) + len, m->m_header_buf,
